@@ -5,55 +5,18 @@
 
 #![allow(clippy::too_many_arguments, clippy::needless_range_loop)]
 
-mod alloc;
-mod codec;
-mod gen;
-mod gf;
-mod hooks;
-mod neon_emu;
-mod util;
 
-#[cfg(feature = "neon-port")]
-#[allow(unexpected_cfgs, dead_code, clippy::all)]
-mod neon_port {
-    include!(concat!(env!("OUT_DIR"), "/engine_neon_port.rs"));
-}
 
-mod mon_c01;
-mod mon_c02;
-mod mon_c03;
-mod mon_c04;
-mod mon_c05;
-mod mon_c06;
-mod mon_c07;
-mod mon_c08;
-mod mon_c09;
-mod mon_c10;
-mod mon_c11;
-mod mon_c12;
-mod mon_c13;
-mod mon_c14;
-mod mon_c15;
-mod mon_c16;
-mod mon_c17;
 
 use std::sync::Mutex;
 
 #[global_allocator]
-static GLOBAL: alloc::Counting = alloc::Counting;
+static GLOBAL: rsmon::alloc::Counting = rsmon::alloc::Counting;
 use std::time::Instant;
 
-use util::{Agg, RunCfg};
+use rsmon::util::{self, Agg, RunCfg};
+use rsmon::*;
 
-pub struct Scale(pub f64);
-static SCALE: std::sync::OnceLock<f64> = std::sync::OnceLock::new();
-
-/// number of cases for a stage: quick / thorough base counts times --scale
-pub fn count(cfg: &RunCfg, quick: u64, thorough: u64) -> u64 {
-    let base = if cfg.thorough { thorough } else { quick };
-    let s = *SCALE.get().unwrap_or(&1.0);
-    ((base as f64 * s).ceil() as u64).max(1)
-}
 
 fn main() {
     let args: Vec<String> = std::env::args().collect();
